@@ -49,8 +49,10 @@ ENGINES = {
                                 "src/options/multi_option.cpp", "src/options/toggle.cpp", "src/env/get.cpp"],
                      ld=[], variants=[("", [])], probes=[]),
     "dlsim": dict(src=["sim/dlsim/dlsim.cpp"], nitro_src=["src/env/get.cpp"],
-                  ld=["-Wl,--wrap=dlopen,--wrap=dlsym,--wrap=dlclose,--wrap=dlerror"],
-                  variants=[("", [])], probes=[]),
+                  ld=["-Wl,--wrap=dlopen,--wrap=dlsym,--wrap=dlclose,--wrap=dlerror", "-rdynamic", "-Wl,--defsym=sim_null=0"],
+                  variants=[("", [])], probes=[],
+                  shared_libs=[("libsimrealA.so", "sim/dlsim/testlib.c", ["-DLIBID=0"]),
+                               ("libsimrealB.so", "sim/dlsim/testlib.c", ["-DLIBID=1"])]),
     "logsim": dict(src=["sim/logsim/logsim.cpp"], nitro_src=[], opt="-O0", recycle=300,
                    ld=["-Wl,--wrap=pthread_mutex_lock,--wrap=pthread_mutex_unlock,--wrap=pthread_mutex_trylock,"
                        "--wrap=pthread_mutex_timedlock,--wrap=pthread_mutex_clocklock,"
@@ -235,6 +237,12 @@ def build_engine(engine):
             shutil.rmtree(d, ignore_errors=True)
             return None, probes
         names.append((vname, bname))
+    for lname, lsrc, lflags in spec.get("shared_libs", []):
+        r = run_cmd(["gcc", "-shared", "-fPIC", "-O1", "-Wl,--defsym=sim_null=0"] + lflags + [os.path.join(VERIF, lsrc), "-o", os.path.join(d, lname)])
+        if r.returncode != 0:
+            sys.stderr.write("SHARED LIB FAILED: %s\n%s\n" % (lname, r.stderr[-2000:]))
+            shutil.rmtree(d, ignore_errors=True)
+            return None, probes
     for f in os.listdir(d):
         if f.endswith(".o"):
             os.unlink(os.path.join(d, f))
@@ -666,6 +674,7 @@ def run_check(prop, tier, seed):
             "samples": samples,
             "simulated_runs": runs,
             "runs_per_hour": int(evals / search_s * 3600),
+            "seeds_per_hour": int(runs / search_s * 3600),
             "seeds": {"batch_seed": seed, "first_run_index": 0, "last_run_index": total - 1,
                       "derivation": "run_seed = splitmix64(VERIF_SEED ^ engine_tag*phi ^ splitmix64(i)); xoshiro256** per run"},
             "steps": steps,
